@@ -367,12 +367,18 @@ struct Engine {
         impl.api->fill_memory(impl.m, 0);
     }
 
+    // flag pre-states: 0 = all clear, 1 = all set, 2 = z e c v set / m n vl lm clear (an overflow whose latch software has cleared),
+    // 3 = the complement of 2
+    static void SetFlagsPre(VState& s, int code) {
+        const bool a = code == 1 || code == 2, b = code == 1 || code == 3;
+        s.fz = s.fe = s.fc0 = s.fv = s.fr = (u16)a;
+        s.fm = s.fn = s.fvl = s.flm = s.fc1 = (u16)b;
+    }
     // one concrete case
     void Case(u16 opcode, const DecodeInfo& d, const Plan& p, u64 A, u64 Bacc, u16 B16, int sata, int flags_pre) {
         VState s = base;
         s.sata = (u16)sata;
-        s.fz = s.fm = s.fe = s.fn = s.fc0 = s.fv = s.fvl = s.flm = (u16)flags_pre;
-        s.fc1 = s.fr = (u16)flags_pre;
+        SetFlagsPre(s, flags_pre);
         if (p.setup)
             p.setup(s);
         AccRef(s, p.acc_in) = A;
@@ -469,7 +475,7 @@ struct Engine {
         std::string n = d.name;
         VState s = base;
         s.sata = (u16)sata;
-        s.fz = s.fm = s.fe = s.fn = s.fc0 = s.fv = s.fvl = s.flm = (u16)fl;
+        SetFlagsPre(s, fl);
         std::string form;
         if (n == "movr" && ArgsAre(d, {"Register", "Ax"})) {
             Reg r = kRegister[d.args[0]];
@@ -505,7 +511,7 @@ struct Engine {
         impl.api->decode(opcode, &d);
         if (std::strncmp(d.name, "movr", 4) == 0)
             for (int sata = 0; sata < 2; ++sata)
-                for (int fl = 0; fl < 2; ++fl)
+                for (int fl = 0; fl < 4; ++fl)
                     for (u16 B : O16(false))
                         Movr16Case(opcode, d, B, sata, fl);
         Plan p = MakePlan(opcode, d);
@@ -517,7 +523,7 @@ struct Engine {
         bool wide_src = p.src == S_ACC || p.src == S_PROD;
         bool unary = p.src == S_NONE;
         for (int sata = 0; sata < 2; ++sata)
-            for (int fl = 0; fl < 2; ++fl) {
+            for (int fl = 0; fl < 4; ++fl) {
                 if (unary || p.src == S_CONST) {
                     for (u64 A : accs)
                         Case(opcode, d, p, A, 0, 0, sata, fl);
@@ -538,7 +544,7 @@ struct Engine {
             auto small = A40(false);
             for (u32 B = 0; B < 0x10000; ++B)
                 for (size_t i = 0; i < small.size(); i += 3)
-                    Case(opcode, d, p, small[i], 0, (u16)B, (int)(B & 1), 0);
+                    Case(opcode, d, p, small[i], 0, (u16)B, (int)(B & 1), (int)((B >> 1) & 3));
         }
     }
 };
@@ -604,7 +610,7 @@ inline void Run(const Args& args, Result& res) {
                "condition code; movr 40-bit forms; for the 16-bit movr forms the overflow flags only) is executed once per (left operand in A40, right operand in O16 or A40, sata, flag pre-state) on "
                "the implementation library; result, every other accumulator and the flags z,m,e,n,c,v,vl,lm are compared with exact __int128 "
                "arithmetic; distinct = distinct (opcode, result, flags)";
-    res.bound = Fmt("A40: %zu values (all 2^k, 2^k-1 and complements%s), O16: %zu values, sata in {0,1}, flags pre-state in {all 0, all 1}%s",
+    res.bound = Fmt("A40: %zu values (all 2^k, 2^k-1 and complements%s), O16: %zu values, sata in {0,1}, flags pre-state in {all 0, all 1, z/e/c/v set with m/n/vl/lm clear, its complement}%s",
                     A40(true).size(), "", O16(true).size(),
                     th ? "; plus all 65536 16-bit operands for one encoding per (operation, operand form)" : "");
     res.assumptions = {"bitwise results are stored unsaturated (reading of the statement recorded in DESIGN.md)",
